@@ -197,6 +197,11 @@ class SimKernel(object):
         self.popen_calls = 0
         self.exec_fail_plan = exec_fail_plan or {}   # n -> errno
         self.exec_failures = 0
+        # n-th send_signal() of the daemon to one of its workers -> EPERM
+        # (a worker that changed its credentials; psutil: AccessDenied)
+        self.signal_fail_plan = {}
+        self.send_signal_calls = 0
+        self.signal_failures = 0
         self.behaviour_for = behaviour_for or (lambda k, a, kw, n: Behaviour())
         self.spawn_cost = spawn_cost
         self.want_fdtable = want_fdtable
@@ -842,6 +847,11 @@ class SimPopen(_InfoMixin):
         k.sim.boundary('send_signal')
         if self._gone:
             raise NoSuchProcess(self.pid)
+        k.send_signal_calls += 1
+        if k.send_signal_calls in k.signal_fail_plan:
+            k.signal_failures += 1
+            k.sim.rec('signal_eperm', self.pid, sig)
+            raise _simulated(psutil.AccessDenied(self.pid))
         try:
             k.signal(self.pid, sig, 'send_signal')
         except ProcessLookupError:
